@@ -190,6 +190,7 @@ def run(P: Program, R: Report, tier: str) -> None:
         "the group inverse inverts sub-edits in reverse order; every sub-edit of a user action is recorded in order",
         "undo/redo pick the right recorded action and apply its inverse exactly once (R02.2-R02.4)",
     ]
+    R.decides += ['every top-level action is one history step (shared R02.6); no query of the data model answers from a memo that a writer forgets to drop']
     R.not_decided += [
         "equality of recomputed feature values after inversion (runtime values)",
         "aliasing of captured mutable values; the documented preconditions of primitives",
